@@ -904,6 +904,7 @@ pub struct Runner<R: mqtt::connection::role::RoleType> {
     pub last_events: Vec<GenericEvent<Pid>>,
     pub last_acquired: Option<u64>,
     pub log: Vec<Op>,
+    pub last_unread: usize,
 }
 
 impl<R: mqtt::connection::role::RoleType> Runner<R> {
@@ -919,6 +920,7 @@ impl<R: mqtt::connection::role::RoleType> Runner<R> {
             last_events: Vec::new(),
             last_acquired: None,
             log: Vec::new(),
+            last_unread: 0,
         }
     }
 
@@ -1132,6 +1134,7 @@ impl<R: mqtt::connection::role::RoleType> Runner<R> {
             self.shadow_pb.reset();
         }
         self.out.extend_from_slice(&rec);
+        self.last_unread = unread;
         unread
     }
 
